@@ -45,8 +45,6 @@ fn build_group(tape: &[u8], stats: &mut GenStats, n_variants: usize) -> Option<G
     let mut cfg = CaseCfg::default();
     cfg.delivery_weights = [70, 30, 0];
     cfg.gen.max_ops = 2;
-    cfg.exclude_id_var_rust = false;
-    cfg.gen.allow_id_variable = false; // D21 (listed under C02) would make the rust variant fail to build
     cfg.force_opts = Some(baseline());
     let mut t0 = Tape::new(tape);
     let base0 = build_base(&mut t0, &cfg, stats)?;
@@ -211,7 +209,7 @@ fn replay(report: &mut Report, v: &Value) {
 
 pub fn run(report: &mut Report, replay_v: Option<&Value>) {
     report.rule = "each base case (schema, document) is compiled under a baseline option set and under 2 random combinations of the wire-neutral options (normalization, extra response / variables derive lists, module visibility, custom-scalars module, serde path, extern-enum subsets supplied as transparent string newtypes); the same vectors (conforming payloads, sampled single-point corruptions, variable assignments, a bogus assignment) go to every variant. Oracle: outcome class and Ok JSON identical to the baseline. Non-trivial: the variants differ from the baseline in >= 2 options and the case has an enum or an input object; distinct by hash(schema, document, vector, variant options).".into();
-    report.assumptions = vec!["rustc 1.95 + serde/serde_json as installed are correct".into(), "ID-typed variables are not generated here (a listed C02 finding makes normalization = rust fail to build with them)".into()];
+    report.assumptions = vec!["rustc 1.95 + serde/serde_json as installed are correct".into()];
     if let Some(v) = replay_v {
         replay(report, v);
         return;
